@@ -56,7 +56,7 @@ MANIFEST = {
 PROPS = {
     "C15": ["TriggerStartsRebroadcast", "RejectedNeverRebroadcast", "NotAfterConfirmed", "ParentsFirst",
             "RebroadcastComplete", "MarkConfirmedReturns", "StopReturns", "BroadcastReturns",
-            "FailOnlyIfAllRejectedOrThreshold", "RejectedByEveryReplierNotAccepted"],
+            "FailOnlyIfAllRejectedOrThreshold", "RejectedByEveryReplierNotAccepted", "ThresholdReachedNotAccepted"],
 }
 
 CODE_VERSION = json.load(open(os.path.join(SPEC, "code_version.json")))
@@ -68,6 +68,11 @@ CONFIGS = {
         S=dict(NP=3, Thrs="{60}", Codes="{1,2}", MaxDelay=1, MaxX=0, MaxDup=1),
         # messages about another hash (reject, getdata), two peers
         S2=dict(NP=2, Thrs="{50,60}", Codes="{1,2,4}", MaxDelay=1, MaxX=2, MaxDup=1),
+        # exact threshold boundary: 5 peers, 3 of 5 invalid = the default 60 % (float32(0.6) > 0.6)
+        S3=dict(NP=5, MinNP=5, Ordered=True, Thrs="{60}", Codes="{1}", MaxDelay=0, MaxX=0, MaxDup=0),
+        # rescan slice: the rescan finds the tx in a block, relevant by input / by output only / both / not at all
+        C=dict(NTx=2, MaxOps=4, MaxM=2, MaxWait=3, Outs='{"ok","invalid"}', ROuts='{"ok"}',
+               Rels='{"spend","pay","both","neither"}'),
         BF=dict(NTx=2, MaxOps=5, MaxM=2, MaxWait=3, Outs='{"ok","mempool","invalid"}', ROuts='{"ok","confirmed"}'),
         walks=0, depth=0, keep=10, tries=8),
     "thorough": dict(
@@ -75,6 +80,9 @@ CONFIGS = {
         S=dict(NP=4, Thrs="{50,60,100}", Codes="{1,2,3,4,5}", MaxDelay=1, MaxX=0, MaxDup=0),
         # repeated messages (second getdata / second reject, also of another class) and unrelated rejects
         S2=dict(NP=3, Thrs="{60}", Codes="{1,2,4}", MaxDelay=1, MaxX=1, MaxDup=2),
+        S3=dict(NP=5, MinNP=5, Ordered=True, Thrs="{60}", Codes="{1,2}", MaxDelay=1, MaxX=0, MaxDup=0),
+        C=dict(NTx=2, MaxOps=5, MaxM=2, MaxWait=3, Outs='{"ok","invalid"}', ROuts='{"ok","confirmed"}',
+               Rels='{"spend","pay","both","neither"}'),
         BF=dict(NTx=3, MaxOps=5, MaxM=2, MaxWait=3, Outs='{"ok","mempool","invalid"}', ROuts='{"ok","confirmed","invalid"}'),
         walks=4000, depth=14, keep=20, tries=60,
         # a second, smaller Broadcaster graph with every outcome class
@@ -103,7 +111,7 @@ def label(act):
     op = act.get("op", "?")
     if op in ("BcastCall", "MarkCall"):
         s = "%s(%s)" % (op, act.get("tx"))
-    elif op in ("HRelease", "RbRelease"):
+    elif op in ("HRelease", "RbRelease", "Mined"):
         s = "%s(%s,%s)" % (op, act.get("tx"), act.get("out"))
     elif op == "Msg":
         k = act.get("kind")
@@ -179,18 +187,29 @@ def model_fine(consts, wd):
     return tlc
 
 
+DRV_B_ENV = os.path.join(OVL, "pushtx", "zz_verif_broadcaster_env_test.go")
+DRV_S_ENV = os.path.join(OVL, "neutrino", "zz_verif_broadcaster_env_test.go")
+
+
 def build_b(sc):
-    return family.build_overlay_test(PKG_B, [DRV_B, WALKER], os.path.join(sc, "pushtx.test"))
+    return family.build_overlay_test(PKG_B, [DRV_B, DRV_B_ENV, WALKER], os.path.join(sc, "pushtx.test"))
+
+
+def _as_neutrino(src_file, sc):
+    out = os.path.join(sc, os.path.basename(src_file))
+    src = open(src_file).read()
+    src2 = re.sub(r"(?m)^package pushtx$", "package neutrino", src, count=1)
+    if src2 == src:
+        raise core.MachineryError("%s: package clause not found" % src_file)
+    open(out, "w").write(src2)
+    return out
 
 
 def build_s(sc):
-    wcopy = os.path.join(sc, "zz_verif_broadcaster_walker_test.go")
-    src = open(WALKER).read()
-    src2 = re.sub(r"(?m)^package pushtx$", "package neutrino", src, count=1)
-    if src2 == src:
-        raise core.MachineryError("walker: package clause not found")
-    open(wcopy, "w").write(src2)
-    return family.build_overlay_test(PKG_S, [DRV_S, wcopy], os.path.join(sc, "neutrino.test"))
+    """Root-package binary: the SendTx driver, and the Broadcaster driver once more (same source, package clause
+    rewritten) with the root-package environment that adds the rescan slice (real extractBlockMatches)."""
+    return family.build_overlay_test(PKG_S, [DRV_S, DRV_S_ENV, _as_neutrino(WALKER, sc), _as_neutrino(DRV_B, sc)],
+                                     os.path.join(sc, "neutrino.test"))
 
 
 def drive(binary, test, sc, tag, seed, graph=None, paths=None, walks=0, depth=0, keep=1, tries=24):
@@ -265,17 +284,22 @@ def run(prop_id, tier, seed, replay=None):
     big = tempfile.mkdtemp(prefix="br-tlc-", dir="/tmp") if tier == "thorough" else sc
     try:
         fams = {"b": ("Broadcaster", "BroadcasterProps", "TestVerifBroadcasterReplay"),
-                "s": ("SendTx", "SendTxProps", "TestVerifSendTxReplay")}
+                "s": ("SendTx", "SendTxProps", "TestVerifSendTxReplay"),
+                # rescan-to-broadcaster slice: the Broadcaster spec with Mined(tx, class), driven in package neutrino
+                "c": ("Broadcaster", "BroadcasterProps", "TestVerifBroadcasterReplay")}
         builders = {"b": build_b, "s": build_s}
+        binof = {"b": "b", "s": "s", "c": "s"}
         observed = {}
         stats = {}
         tlcs, graphs, mviol = {}, {}, Counter()
         if replay:
-            fam = json.load(open(replay))["trace"].get("fam", "broadcaster")
-            k = "s" if fam == "sendtx" else "b"
+            rtr = json.load(open(replay))["trace"]
+            k = "s" if rtr.get("fam", "broadcaster") == "sendtx" else "b"
+            if any(s["act"].get("op") == "Mined" for s in rtr["steps"]):
+                k = "c"
             pf = os.path.join(sc, "paths.ndjson")
             paths_from_replay(replay, pf)
-            binary = builders[k](sc)
+            binary = builders[binof[k]](sc)
             observed[k], stats[k] = drive(binary, fams[k][2], sc, k, seed, paths=pf)
             run_keys = [k]
         else:
@@ -283,18 +307,19 @@ def run(prop_id, tier, seed, replay=None):
             binv = ["TypeOK", "Quiescent", "SemInv", "SortedInv", "IdleServes"] + (
                 ["NoViolation"] if CODE_VERSION["FixMarkQuit"] else [])
             sinv = ["TypeOK"] + (["NoViolation"] if CODE_VERSION["FixRejectFromReplier"] else [])
-            bconst = dict(FixMarkQuit=CODE_VERSION["FixMarkQuit"], Fine=False)
-            runs = {"b": ("Broadcaster", dict(cfg["B"], **bconst), binv),
-                    "s": ("SendTx", dict(cfg["S"], FixRejectFromReplier=CODE_VERSION["FixRejectFromReplier"]), sinv)}
-            if "B2" in cfg:
-                runs["b2"] = ("Broadcaster", dict(cfg["B2"], **bconst), binv)
-            if "S2" in cfg:
-                runs["s2"] = ("SendTx", dict(cfg["S2"], FixRejectFromReplier=CODE_VERSION["FixRejectFromReplier"]),
-                              sinv)
+            bconst = dict(FixMarkQuit=CODE_VERSION["FixMarkQuit"], Fine=False, Rels="{}")
+            sconst = dict(FixRejectFromReplier=CODE_VERSION["FixRejectFromReplier"], MinNP=1, Ordered=False)
+            runs = {}
+            for key in ("B", "B2", "C"):
+                if key in cfg:
+                    runs[key.lower()] = ("Broadcaster", dict(bconst, **cfg[key]), binv)
+            for key in ("S", "S2", "S3"):
+                if key in cfg:
+                    runs[key.lower()] = ("SendTx", dict(sconst, **cfg[key]), sinv)
             with concurrent.futures.ThreadPoolExecutor(max_workers=3 if tier == "thorough" else 6) as ex:
                 fb = {k: ex.submit(builders[k], sc) for k in ("b", "s")}
                 fm = {k: ex.submit(model, v[0], v[1], os.path.join(big, "tlc-" + k), v[2]) for k, v in runs.items()}
-                ff = ex.submit(model_fine, dict(cfg["BF"], FixMarkQuit=CODE_VERSION["FixMarkQuit"]),
+                ff = ex.submit(model_fine, dict(cfg["BF"], FixMarkQuit=CODE_VERSION["FixMarkQuit"], Rels="{}"),
                                os.path.join(big, "tlc-fine"))
                 bins = {k: f.result() for k, f in fb.items()}
                 models = {k: f.result() for k, f in fm.items()}
@@ -305,7 +330,7 @@ def run(prop_id, tier, seed, replay=None):
                 tlcs[k], graphs[k] = tlc, g
                 mviol.update(names)
                 fk = k[0]
-                observed[k], stats[k] = drive(bins[fk], fams[fk][2], sc, k, seed, graph=gf,
+                observed[k], stats[k] = drive(bins[binof[fk]], fams[fk][2], sc, k, seed, graph=gf,
                                               walks=cfg["walks"] if k in ("b", "s") else 0, depth=cfg["depth"],
                                               keep=cfg["keep"], tries=cfg["tries"])
                 os.remove(gf)
@@ -346,7 +371,7 @@ def run(prop_id, tier, seed, replay=None):
         extra = {"states": max(1, sum(t.distinct for k, t in tlcs.items() if k != "b-small-steps")),
                  "traces_validated_against_impl": n_paths, "replayed_paths": n_paths, "replayed_steps": n_steps,
                  "traces_judged_again_by_tlc_on_observed_values": len(all_obs),
-                 "config": {k: v for k, v in cfg.items() if k in ("B", "S", "B2", "S2", "BF")}, "code_version": CODE_VERSION,
+                 "config": {k: v for k, v in cfg.items() if k in ("B", "S", "B2", "S2", "S3", "C", "BF")}, "code_version": CODE_VERSION,
                  "replay_stats": stats,
                  "edges_not_hit_because_the_code_chose_otherwise": sum(s.get("not_hit_scheduling", 0) for s in stats.values()),
                  "edges_only_reachable_through_model_violation": sum(
